@@ -317,6 +317,7 @@ def build():
             "true_means_progress": "implies(result, n_events('submit') + n_events('dropped') == 1 or n_events('register_outcome') == 1)",
             "dispatched_batch_continues_the_sequence": "implies(n_events('submit') == 1, submitted()[0].lo == at_acquire('QLO') and submitted()[0].hi > submitted()[0].lo)",
             "false_means_nothing_left_or_aborting": "implies(not result and not old(self._aborting), n_events('submit') == 0 and n_events('queue.get') == 0 and TAKEN == at_acquire('TAKEN'))",
+            "false_means_the_iterator_was_found_exhausted": "implies(not result and not old(self._aborting), n_events('pull') == 1 and pulled() == 0 and exhausted(iterator))",
             # C04: a failing input iterator is turned into a failed job of this call and the retrieval loop keeps running
             "iterator_failure_is_never_swallowed": "implies(iterator_raised(), n_events('register_outcome') == 1 and result)",
             "iterator_failure_is_registered": "implies(n_events('register_outcome') == 1, result and ev_named('register_outcome')[0][2] == 'Error' and n_events('register_new_job') == 1 "
@@ -332,13 +333,35 @@ def build():
             },
         )},
     ))
+    def exhausted(interp, it):
+        taken, total = G(interp, "TAKEN"), G(interp, "INPUTLEN")
+        if isinstance(it, Opaque) and it.tag == "limited":
+            return ops.mk_bool(z3.Or(taken >= total, taken >= G(interp, "LIMIT")))
+        return ops.mk_bool(taken >= total)
+
+    p.spec_funcs["exhausted"] = exhausted
     p.spec_funcs["iterator_raised"] = lambda interp: any(e[0] == "pull" and e[2] == "raised" for e in interp.ctx.events)
 
     # ---- dispatch_next / _start use dispatch_one_batch through its contract (summary: returns a bool, may dispatch one batch)
     def d1b_summary(interp, recv, args, kwargs):
-        interp.ctx.events.append(("dispatch_one_batch", args[0]))
-        r = BOOL.fresh(interp.ctx, "dispatched")
-        interp.ctx.ghost.setdefault("D1B_RESULTS", []).append(r)
+        """Contract of dispatch_one_batch seen from a caller: a bool; False without an abort means the iterator handed in was
+        found exhausted (for the pre_dispatch slice: its limit is used up, or the input is); nothing is pulled on False."""
+        ctx = interp.ctx
+        ctx.events.append(("dispatch_one_batch", args[0]))
+        r = BOOL.fresh(ctx, "dispatched")
+        ctx.ghost.setdefault("D1B_RESULTS", []).append(r)
+        if "SLICE_TAKEN" in ctx.ghost:
+            it = args[0]
+            aborted = BOOL.fresh(ctx, "abort_seen")
+            ctx.ghost["ABORT_SEEN"] = ops.mk_bool(ops.b_or(ops.truth(ctx.ghost["ABORT_SEEN"]), ops.truth(aborted)))
+            st0, t0 = G(interp, "SLICE_TAKEN"), G(interp, "TAKEN")
+            st1, t1 = z3.Int(ctx.fresh_name("slice_taken")), z3.Int(ctx.fresh_name("taken"))
+            limited = isinstance(it, Opaque) and it.tag == "limited"
+            lim = ops.as_int_term(it.attrs["n"]) if limited else None
+            done = z3.Or(t1 >= G(interp, "INPUTLEN"), st1 >= lim) if limited else t1 >= G(interp, "INPUTLEN")
+            ctx.assume(z3.And(t1 >= t0, st1 >= st0, t1 <= G(interp, "INPUTLEN"),
+                              z3.Implies(z3.Not(ops.truth(r)), z3.And(st1 == st0, z3.Or(ops.truth(aborted), done)))))
+            ctx.ghost["SLICE_TAKEN"], ctx.ghost["TAKEN"] = Sym(INT, st1), Sym(INT, t1)
         return r
 
     sglob = {}
@@ -356,13 +379,33 @@ def build():
                  "keeps_iterating_otherwise": "implies(last_dispatch(), self._original_iterator is old(self._original_iterator) and self._iterating == old(self._iterating))"},
     )))
     p.spec_funcs["last_dispatch"] = lambda interp: interp.ctx.ghost["D1B_RESULTS"][-1]
+    p.spec_funcs["is_tag"] = lambda interp, o, tag: isinstance(o, Opaque) and o.tag == tag
+    p.spec_funcs["limited_to"] = lambda interp, o: o.attrs.get("n")
+
+    def start_iterator(interp):
+        if interp.ctx.choose(2, "pre_dispatch-slice") == 0:
+            return Opaque("limited", None, n=INT.fresh(interp.ctx, "limit"))
+        return Opaque("taskiter", None)
     p.add(with_summary(Contract(
         PAR, "Parallel._start", props=["C01", "C09", "C04"],
-        params=dict(self=parallel(_original_iterator=Opt(OpaqueOf("taskiter"))), iterator=OpaqueOf("limited"), pre_dispatch=OneOf("all", INT)),
-        ensures={"dispatches_until_the_slice_is_exhausted": "last_dispatch() is_false" if False else "not_true(last_dispatch())",
+        ghost=dict(INPUTLEN=INT, TAKEN=INT, SLICE_TAKEN=INT, ABORT_SEEN=BOOL),
+        params=dict(self=parallel(_original_iterator=Opt(OpaqueOf("taskiter"))), iterator=start_iterator, pre_dispatch=OneOf("all", INT)),
+        requires=["SLICE_TAKEN == 0 and 0 <= TAKEN and TAKEN <= INPUTLEN and ABORT_SEEN is False",
+                  # established by Parallel.__call__ (part 4): 'all' hands the input itself over and disables callbacks' dispatching
+                  "(pre_dispatch == 'all') == is_tag(iterator, 'taskiter')", "implies(pre_dispatch == 'all', self._original_iterator is None)",
+                  # a callback thread that exhausts the input clears _original_iterator (dispatch_next)
+                  "implies(pre_dispatch != 'all' and self._original_iterator is None, TAKEN >= INPUTLEN)",
+                  # the obligation on the caller: the slice dispatched by the calling thread is not empty by construction
+                  "implies(is_tag(iterator, 'limited'), limited_to(iterator) >= 1)"],
+        ensures={"dispatches_until_the_slice_is_exhausted": "not_true(last_dispatch())",
+                 "no_task_is_left_behind": "implies(not ABORT_SEEN, self._iterating or TAKEN >= INPUTLEN)",
                  "all_means_no_lazy_dispatch_left": "implies(pre_dispatch == 'all', self._iterating is False)",
                  "iterating_only_if_something_was_dispatched_and_callbacks_may_continue": "implies(self._iterating, first_dispatch() and self._original_iterator is not None)"},
-        loops={1: Loop("while self.dispatch_one_batch(iterator)", invariant={"iterating_flag": "implies(self._iterating, first_dispatch() and self._original_iterator is not None)"})},
+        loops={1: Loop("while self.dispatch_one_batch(iterator)",
+                       invariant={"iterating_flag": "implies(self._iterating, first_dispatch() and self._original_iterator is not None)",
+                                  "nothing_left_behind_so_far": "implies(not ABORT_SEEN and not self._iterating, TAKEN >= INPUTLEN or (first_dispatch() and self._original_iterator is None))",
+                                  "counts": "old(TAKEN) <= TAKEN and TAKEN <= INPUTLEN"},
+                       havoc=["ghost:TAKEN", "ghost:SLICE_TAKEN", "ghost:ABORT_SEEN"])},
     )))
     p.spec_funcs["first_dispatch"] = lambda interp: interp.ctx.ghost["D1B_RESULTS"][0]
     p.spec_funcs["not_true"] = lambda interp, b: ops.mk_bool(ops.b_not(ops.truth(b)))
